@@ -5,6 +5,7 @@ import enum
 
 import z3
 
+from .values import (ZERO_ARR, b_arr, b_len, mkb)
 from .values import (BOOL, BYTES, INT, REAL, BytesSort, MutBytes, Obj, PDict,
                      PList, PSet, Sym, SymEnum, SymList, SymMap, SymSet,
                      concrete_bool, concrete_int, is_byteslike, lift_bool,
@@ -184,7 +185,7 @@ def arith(ex, op, a, b):
 def blen(v):
     if isinstance(v, (bytes, bytearray)):
         return len(v)
-    return mk_int(z3.Length(lift_bytes(v)))
+    return mk_int(b_len(lift_bytes(v)))
 
 
 def norm_index(i, n, lo_default):
@@ -199,14 +200,42 @@ def norm_index(i, n, lo_default):
     return z3.If(j < 0, z3.IntVal(0), z3.If(j > n, n, j))
 
 
+def _k():
+    return z3.Int("k!b")
+
+
+def shifted(arr, a):
+    """the array k -> arr[k + a]"""
+    a = z3.simplify(a)
+    if z3.is_int_value(a) and a.as_long() == 0:
+        return arr
+    k = _k()
+    return z3.Lambda([k], z3.Select(arr, k + a))
+
+
+def bslice_t(s, a, ln):
+    return mkb(shifted(b_arr(s), a), z3.simplify(ln))
+
+
 def bslice(v, lo, hi):
     """v[lo:hi] with Python's clamping and negative-index rules"""
     s = lift_bytes(v)
-    n = z3.Length(s)
+    n = b_len(s)
     a = norm_index(lo, n, z3.IntVal(0))
     b = norm_index(hi, n, n)
     ln = z3.If(b > a, b - a, z3.IntVal(0))
-    return mk_bytes(z3.SubSeq(s, a, ln))
+    return mk_bytes(bslice_t(s, a, ln))
+
+
+def byte_at(ex, s, j):
+    """element j of bytes term s (no bounds check), with its range fact"""
+    e = z3.simplify(z3.Select(b_arr(s), z3.simplify(j)))
+    if not z3.is_int_value(e):
+        key = e.get_id()
+        if key not in ex.byte_facts:
+            ex.byte_facts.add(key)
+            ex.assume(z3.And(e >= 0, e < 256))
+    return e
 
 
 def bindex(ex, v, i):
@@ -217,44 +246,67 @@ def bindex(ex, v, i):
         except IndexError:
             ex.raise_builtin(IndexError)
     s = lift_bytes(v)
-    n = z3.Length(s)
+    n = b_len(s)
     i = lift_int(i)
     if ex.opt.get("spec_mode"):
-        e = z3.simplify(s[z3.simplify(i)])
-        ex.assume(z3.And(e >= 0, e < 256))
-        return mk_int(e)
+        return mk_int(byte_at(ex, s, i))
     j = z3.If(i < 0, i + n, i)
     if ex.fork(z3.Or(j < 0, j >= n), "bytes index out of range"):
         ex.raise_builtin(IndexError)
-    e = z3.simplify(s[z3.simplify(j)])
-    ex.assume(z3.And(e >= 0, e < 256))
-    return mk_int(e)
+    return mk_int(byte_at(ex, s, j))
+
+
+def bconcat_t(x, y):
+    lx, ly = b_len(x), b_len(y)
+    clx = concrete_int(lx)
+    if clx == 0:
+        return y
+    if concrete_int(ly) == 0:
+        return x
+    ax, ay = b_arr(x), b_arr(y)
+    k = _k()
+    return mkb(z3.Lambda([k], z3.If(k < lx, z3.Select(ax, k),
+                                    z3.Select(ay, k - lx))),
+               z3.simplify(lx + ly))
 
 
 def bconcat(a, b):
     if isinstance(a, (bytes, bytearray)) and isinstance(b, (bytes, bytearray)):
         return bytes(a) + bytes(b)
-    return mk_bytes(z3.Concat(lift_bytes(a), lift_bytes(b)))
+    return mk_bytes(bconcat_t(lift_bytes(a), lift_bytes(b)))
 
 
 def zeros(ex, n, byte=0):
-    """bytes(n) / b'\\0' * n for a symbolic n: fresh sequence with axioms"""
+    """bytes(n) / b'\\0' * n for a symbolic n"""
     if isinstance(n, int):
         return bytes([byte]) * max(n, 0)
     n = lift_int(n)
-    z = z3.Const(ex.fresh_name("zeros"), BytesSort)
-    k = z3.Int(ex.fresh_name("k"))
-    ex.assume(z3.Length(z) == z3.If(n > 0, n, 0))
-    ex.assume(z3.ForAll([k], z3.Implies(z3.And(k >= 0, k < z3.Length(z)),
-                                        z[k] == byte), patterns=[z[k]]))
-    return Sym(z, BYTES)
+    return Sym(mkb(z3.K(z3.IntSort(), z3.IntVal(byte)),
+                   z3.simplify(z3.If(n > 0, n, 0))), BYTES)
 
 
 def byte_fact(ex, s, k):
-    """element k of byte string s lies in 0..255"""
-    e = s[k]
-    ex.assume(z3.And(e >= 0, e < 256))
-    return e
+    return byte_at(ex, s, k)
+
+
+def bytes_eq(ex, a, b):
+    """python equality of two byte strings as a z3 Bool"""
+    x, y = lift_bytes(a), lift_bytes(b)
+    lx, ly = b_len(x), b_len(y)
+    cx, cy = concrete_int(lx), concrete_int(ly)
+    if cx is not None and cy is not None and cx != cy:
+        return z3.BoolVal(False)
+    ax, ay = b_arr(x), b_arr(y)
+    if x.eq(y):
+        return z3.BoolVal(True)
+    n = cx if cx is not None else cy
+    if n is not None and n <= 32:
+        return z3.And(lx == ly, *[z3.Select(ax, i) == z3.Select(ay, i)
+                                  for i in range(n)])
+    k = z3.Int(ex.fresh_name("k!eq"))
+    return z3.And(lx == ly,
+                  z3.ForAll([k], z3.Implies(z3.And(k >= 0, k < lx),
+                                            z3.Select(ax, k) == z3.Select(ay, k))))
 
 
 # ---------------------------------------------------------------- compare --
@@ -290,7 +342,7 @@ def values_equal(ex, a, b):
     if is_byteslike(a) and is_byteslike(b):
         if isinstance(a, (bytes, bytearray)) and isinstance(b, (bytes, bytearray)):
             return bytes(a) == bytes(b)
-        return mk_bool(lift_bytes(a) == lift_bytes(b))
+        return mk_bool(bytes_eq(ex, a, b))
     from .values import SymTuple
     if isinstance(a, SymTuple) or isinstance(b, SymTuple):
         if isinstance(b, SymTuple):
